@@ -47,7 +47,9 @@ def spell_field(carrier, sem, form):
         ps.append(spell_param("rank", str(r), form))
     if not ps:
         return None
-    if form % 2 == 1:
+    # parameter order decorrelated from the value spelling: every spelling occurs first and last in its list
+    # (`rank = -3, method(..)` reaches the parser as a unary minus, `method(..), rank = -3` as a signed literal)
+    if form % 8 in (1, 3, 4, 6):
         ps.reverse()
     return "%s(%s)" % (carrier, ", ".join(ps))
 
@@ -996,7 +998,13 @@ DISCR_EXPRS = {
     "bytelit": [("0", 0), ("b'\\t'", 9), ("27", 27), ("b' '", 32), ("127", 127)],
     "constmix": [("1", 1), ("crate::m::HIGH", 200), None, ("100", 100)],
     "constfirst": [("crate::m::HIGH", 200), None, ("3", 3), None],
+    # unsigned reprs with discriminants in the upper half of the type (a signed reading of the same bits sorts them first)
+    "umax": [("1", 1), ("usize::MAX / 2 + 1", 2**63), None, ("usize::MAX", 2**64 - 1)],
+    "u64top": [("5", 5), ("u64::MAX - 1", 2**64 - 2), None, ("2", 2)],
+    "u32top": [("0x8000_0000", 2**31), None, ("7", 7), ("u32::MAX", 2**32 - 1)],
+    "u16top": [("0xFFFF", 65535), ("3", 3), ("0x8000", 32768), None],
 }
+UNSIGNED_TOP = {"umax": ["usize"], "u64top": ["u64"], "u32top": ["u32"], "u16top": ["u16"]}
 
 
 def layout_enum(pid, payloads, dname, repr_, md, note_extra="", neighbours=False):
@@ -1024,7 +1032,7 @@ def layout_enum(pid, payloads, dname, repr_, md, note_extra="", neighbours=False
         for v, d in zip(variants, DISCR_EXPRS[dname][:n]):
             if d:
                 v.sem["discr_src"] = d[0]
-        if dname in ("shl", "or", "mul", "and_xor", "bytelit", "constmix", "constfirst"):
+        if dname in ("shl", "or", "mul", "and_xor", "bytelit", "constmix", "constfirst") or dname in UNSIGNED_TOP:
             P.tags["no_verus"] = "bit-vector discriminant expression: Verus needs by(bit_vector) hints inside the verbatim body (an edit of the verified text); decided by Kani"
     if any(PAYLOADS[p] not in (None, "T0") for p in payloads):
         P.tags["no_verus"] = "concrete payload types (layout grid): decided by Kani on the real layout"
@@ -1073,7 +1081,7 @@ def c04(tier, seed):
                 out.append(layout_enum(c.pid(), sh, dname, repr_, md))
     # (A2) discriminants written as binary / parenthesised expressions (need an integer repr)
     for dname in DISCR_EXPRS:
-        for repr_ in (["i8", "i32"] if dname == "neg_paren" else (["u8"] if dname in ("bytelit", "constmix", "constfirst") else ["u8", "i16"])):
+        for repr_ in (UNSIGNED_TOP[dname] if dname in UNSIGNED_TOP else ["i8", "i32"] if dname == "neg_paren" else (["u8"] if dname in ("bytelit", "constmix", "constfirst") else ["u8", "i16"])):
             for sh in (("none", "none", "none", "none", "none"), ("gen", "none", "gen", "none"), ("none", "gen", "none")):
                 if len(sh) > len(DISCR_EXPRS[dname]):
                     sh = sh[:len(DISCR_EXPRS[dname])]
@@ -1413,6 +1421,22 @@ def c14(tier, seed):
             fs = [Field("a", "T0", attrs=["%s(rank = %s)" % (car, r1)], ord={"rank": v1}), Field("b", "T0", attrs=["%s(rank(%s))" % (car, r2)], ord={"rank": v2}),
                   Field("c", "T1", ord={})]
             out.append(ord_program(c.pid(), "struct", "S", [Variant(None, "named", fs)], md, ["T0", "T1"], j, "C14 rank literal forms `%s` `%s` %s" % (r1, r2, car), prop="C14"))
+    # ---- every order of the parameters inside one entry, the explicit `ignore = false` included: a parameter must not
+    # disturb what an earlier or later one of the same entry has set
+    for md, car, meth in (("both", "Ord", "crate::m::cmp_a"), ("both", "PartialOrd", "crate::m::cmp_b"), ("po", "PartialOrd", "crate::m::pcmp_a")):
+        for k, perm in enumerate(itertools.permutations(["method = %s" % meth, "rank = -9", "ignore(false)"])):
+            two = ["rank = -5", "ignore = false"] if k % 2 else ["ignore = false", "rank = -5"]
+            fs = [Field("a", "T0", ord={}), Field("b", "T0", attrs=["%s(%s)" % (car, ", ".join(two))], ord={"rank": -5}),
+                  Field("c", "u8", attrs=["%s(%s)" % (car, ", ".join(perm))], ord={"method": meth, "rank": -9}), Field("d", "T1", ord={})]
+            out.append(ord_program(c.pid(), "struct", "S", [Variant(None, "named" if k % 3 else "tuple", fs if k % 3 else [Field(None, f.ty, attrs=f.attrs, **f.sem) for f in fs])],
+                                   md, ["T0", "T1"], k, "C14 %s parameter order `%s` / `%s`" % (car, ", ".join(perm), ", ".join(two)), prop="C14"))
+    for k, perm in enumerate(itertools.permutations(["method = crate::m::eq_a", "ignore = false"])):
+        fs = [Field("a", "T0", eq={}), Field("b", "u8", attrs=["PartialEq(%s)" % ", ".join(perm)], eq={"method": "crate::m::eq_a"})]
+        add(Program(c.pid(), "struct", "S", [Variant(None, "named", fs)], ["PartialEq"], generics=["T0"], inst={"T0": "u8"},
+                    focus={"PartialEq"}, note="C14 PartialEq parameter order `%s`" % ", ".join(perm)))
+        perm2 = [x.replace("eq_a", "hash_a") for x in perm]
+        fs = [Field("a", "u16", hash={}), Field("b", "u8", attrs=["Hash(%s)" % ", ".join(perm2)], hash={"method": "crate::m::hash_a"})]
+        add(Program(c.pid(), "struct", "S", [Variant(None, "named", fs)], ["Hash"], focus={"Hash"}, note="C14 Hash parameter order `%s`" % ", ".join(perm2)))
     # ---- explicit "not ignored" spellings: the field must still be compared / hashed / shown
     for j, neg in enumerate(["%s(ignore = false)", "%s(ignore(false))", "%s = true"]):
         fs = [Field("a", "T0", attrs=[neg % "PartialEq"], eq={}), Field("b", "T1", attrs=["PartialEq(ignore)"], eq={"ignore": True}), Field("c", "T0", eq={})]
@@ -2122,6 +2146,12 @@ def wide(prop):
                 vs.append(Variant("V%d" % i, "named", [Field("a", "u8", hash={})]))
             else:
                 vs.append(Variant("V%d" % i, "unit", []))
+        # fields of the tag's own integer type in variants of different shapes: a tag fed at another position
+        # (or not at all) in one shape only makes values of different variants feed identical data
+        for ty in ("usize", "isize"):
+            vs2 = [Variant("V0", "unit", []), Variant("V1", "named", [Field("x", ty, hash={})]), Variant("V2", "tuple", [Field(None, ty, hash={})]),
+                   Variant("V3", "named", [Field("a", ty, hash={}), Field("b", ty, hash={})]), Variant("V4", "tuple", [Field(None, ty, hash={}), Field(None, ty, hash={})])]
+            out.append(Program(pid(), "enum", "E", vs2, ["Hash"], focus={"Hash"}, note="enum with %s fields (the tag's own type) in named and tuple variants" % ty))
         P = Program(pid(), "enum", "E", vs, ["Hash"], focus={"Hash"}, note="258-variant enum (variant positions beyond one byte)")
         P.tags["no_verus"] = "258 x 258 case split of the injectivity lemma exceeds Z3's resource limit; decided by Kani (loop-free, full domain)"
         out.append(P)
@@ -2200,7 +2230,7 @@ BOUND_PATH = {"PartialEq": "core::cmp::PartialEq", "Eq": "core::cmp::Eq", "Parti
               "Clone": "core::clone::Clone", "Default": "core::default::Default"}
 
 
-def bound_twins(programs, limit=6, genericize=False):
+def bound_twins(programs, limit=6, genericize=False, suffix="b"):
     """twins of generic programs whose type-level metas carry an explicit `bound` parameter in
     every documented form (`bound(*)`, `bound(T: P)`, `bound = "T: P"`, `bound = true`,
     `bound(false)` with the bound moved onto the declaration).  The parameter changes the impl
@@ -2233,7 +2263,7 @@ def bound_twins(programs, limit=6, genericize=False):
         k += 1
         Q = copy.deepcopy(P)
         Q.tags.pop("frozen_src", None)
-        Q.pid = P.pid + "b"
+        Q.pid = P.pid + suffix
         has = lambda tn: any(re.match(r"%s\b" % tn, t) for t in Q.traits)
         copyish = has("Copy")
         if has("Eq") and not has("PartialEq"):
